@@ -124,6 +124,34 @@ def scope_selectors(tier):
 
 # ---------------------------------------------------------------------------------------------------------
 
+def twin_case(rng):
+    """Two subtrees that are equal by value under different parents, and :has() selectors whose argument looks *above*
+    the anchor (so that the answer differs for the two twins although they compare equal)."""
+    import copy
+    names = rng.sample(['a', 'b', 'p', 'div', 'span', 'li'], 4)
+    p1, p2, t, c = names
+    inner = E(c, {'class': ['k']} if rng.random() < .5 else {}, [T('text', 'x')] if rng.random() < .5 else [])
+    twin = E(t, {'class': ['x']} if rng.random() < .5 else {}, [inner] + ([E(c)] if rng.random() < .3 else []))
+    a = E(p1, {}, [copy.deepcopy(twin)])
+    b = E(p2, {}, [copy.deepcopy(twin)] + ([copy.deepcopy(twin)] if rng.random() < .3 else []))
+    kids = [a, b] if rng.random() < .5 else [b, E('li'), a]
+    root = E('div', {}, kids)
+
+    def comp(tag=None, **kw):
+        d = {'tag': (None, tag) if tag else None, 'ids': [], 'classes': [], 'attrs': [], 'pseudos': []}
+        d.update(kw)
+        return d
+    up = [comp(p1), rng.choice([' ', '>']), comp(c)]
+    forms = [
+        [[comp(t, pseudos=[('has', [('>', [comp(pseudos=[('is', [up])])])])])]],
+        [[comp(t, pseudos=[('has', [(' ', [comp(c, pseudos=[('not', [[comp(p2), ' ', comp('*')]])])])])])]],
+        [[comp(pseudos=[('has', [('>', [comp(t), '>', comp(pseudos=[('is', [[comp(p1), '>', comp('*'), '>', comp(c)]])])])])])]],
+        [[comp(t, pseudos=[('has', [(' ', [comp(pseudos=[('is', [up, [comp(classes=['zz'])]])])])])])]],
+        [[comp(t, pseudos=[('not', [[comp(pseudos=[('has', [('>', [comp(pseudos=[('where', [up])])])])])]])])]],
+    ]
+    return root, rng.choice(forms)
+
+
 def _cfg():
     return sels.Cfg(p_id=.1, p_class=.22, p_attr=.25, p_struct=.2, p_more=.35)
 
@@ -196,8 +224,12 @@ def run_unit(u):
         rng = random.Random(u['seed'])
         cfg = _cfg()
         for i in range(u['n']):
-            root, ws = trees.gen_tree(rng, max_nodes=rng.choice([6, 15, 40]),
-                                      names=trees.NAMES + (['style', 'script', 'rt'] if rng.random() < .3 else []))
+            forced = None
+            if rng.random() < .08:
+                root, forced = twin_case(rng)
+            else:
+                root, ws = trees.gen_tree(rng, max_nodes=rng.choice([6, 15, 40]),
+                                          names=trees.NAMES + (['style', 'script', 'rt'] if rng.random() < .3 else []))
             tops, mode = trees.wrap(rng, root)
             how = rng.choice(HOWS)
             for j in range(4):
@@ -206,7 +238,7 @@ def run_unit(u):
                 case = cases.Case(tops, how, target)
                 tcfg = sels.tune_to_tree(cfg, case.top_sn, rng)
                 for k3 in range(3):
-                    ast = sels.gen_list(rng, rng.choice([1, 2, 2, 3]), tcfg if k3 else cfg)
+                    ast = forced if (forced is not None and k3 == 0) else sels.gen_list(rng, rng.choice([1, 2, 2, 3]), tcfg if k3 else cfg)
                     st, info = check_case(sv, case, ast, cases.respelled(rng, ast, .1), match_law=rng.random() < .15)
                     if info.get('match_law_checked'):
                         bump('match_law_checked')
